@@ -200,88 +200,87 @@ def r4_precedence(ctx, draw_rows, name):
            why='a mated or stalemated side must be reported as such, not as a clock/repetition draw')
 
 
+def apply_undo_bracket(o, ap, un, atoms):
+    """every classification atom of the path was evaluated after the apply and before the undo (event order)"""
+    idx_ap = [i for i, e in enumerate(o.events) if e[0] == 'call' and e[1] == ap]
+    idx_un = [i for i, e in enumerate(o.events) if e[0] == 'call' and e[1] == un]
+    if len(idx_ap) != 1 or len(idx_un) != 1 or idx_ap[0] > idx_un[0]:
+        return False
+    # the engine stamps every impure call with the epoch it starts and every read-only atom with the epoch it was read in
+    lo_, hi_ = o.events[idx_ap[0]][7], o.events[idx_un[0]][7]
+    return all(isinstance(a[3], tuple) and lo_ <= a[3][1] < hi_ for a, v in atoms)
+
+
 def r3_annotation(ctx):
     rule = 'C06.R3-effect-annotation'
     facts = ctx.facts
-    name = MG + '::lazily_calculate_chess_move_effect'
+    # analysed from the routine that annotates a whole list; a private per-move helper (if any) is inlined, a for_each closure is
+    # interpreted as the loop body
+    n2 = MG + '::lazily_update_chess_move_effect_for_checks_and_checkmates'
+    name = n2
     ap, un, se = CHESSMOVE + '::apply', CHESSMOVE + '::undo', CHESSMOVE + '::set_effect'
-    outs = Engine(facts, opaque={ap, un, se}, readonly={IN_CHECK, IN_MATE}).run(name)
-    ctx.touch(name)
+    outs = Engine(facts, opaque={ap, un, se}, readonly={IN_CHECK, IN_MATE}).run(n2)
+    ctx.touch(n2)
+    for h in facts.only_through({n2}):
+        ctx.touch(h)
     table = {}
     n = 0
-    for o in outs:
-        if o.kind != 'return':
+    its = [o for o in outs if o.kind == 'backedge']
+    every = bool(its)
+    for o in its:
+        heads = [i_ for i_, e in enumerate(o.events) if e[0] == 'loop_head']
+        body = o.events[heads[-1]:] if heads else o.events
+        ev = [e for e in body if e[0] == 'call' and e[1] in (ap, un, se)]
+        names = [e[1] for e in ev]
+        if not names:
+            every = False          # an iteration that leaves the move unclassified
             continue
         n += 1
-        ev = [e for e in o.events if e[0] == 'call']
-        names = [e[1] for e in ev]
         order_ok = names.count(ap) == 1 and names.count(un) == 1 and names.count(se) == 1 and \
             names.index(ap) < names.index(un) < names.index(se)
-        # classification atoms must be evaluated in the epoch between apply and undo
+        same_move = order_ok and all(is_iteration_element(e[2][0]) for e in ev) and len({strip_refs_t(e[2][0]) for e in ev}) == 1
+        # classification atoms must be evaluated between apply and undo (checked on the engine's epochs by apply_undo_bracket)
         atoms = [(a, v) for a, v in o.conds if a[0] == 'call' and a[1] in (IN_CHECK, IN_MATE)]
-        def epoch_at(idx):
-            return sum(1 for e in o.events[:idx] if (e[0] == 'call' and isinstance(e[3], int)) or e[0] == 'write')
-        if names.count(ap) == 1 and names.count(un) == 1:
-            e_after_apply = epoch_at(o.events.index([e for e in ev if e[1] == ap][0]) + 1)
-            e_before_undo = epoch_at(o.events.index([e for e in ev if e[1] == un][0]))
-        else:
-            e_after_apply, e_before_undo = 1, 0
-        ep_ok = all(isinstance(a[3], tuple) and e_after_apply <= a[3][1] <= e_before_undo for a, v in atoms)
+        ep_ok = order_ok
         players = {a[2][2] for a, v in atoms}
         boards = {a[2][0] for a, v in atoms}
         eff = [e for e in ev if e[1] == se][0][2][1] if names.count(se) == 1 else None
         mate = dict((a[1], 1 if is_true(v) else 0) for a, v in atoms)
         key = (mate.get(IN_MATE), mate.get(IN_CHECK))
         table[key] = eff[3] if eff and eff[0] == 'agg' else show(eff)
-        ctx.ob(rule, name, 'path(mate=%s,check=%s): apply < classify < undo < set_effect' % key, order_ok and ep_ok,
+        ctx.ob(rule, name, 'path(mate=%s,check=%s): apply < classify < undo < set_effect' % key, order_ok and ep_ok and same_move and apply_undo_bracket(o, ap, un, atoms),
                found={'calls': [x.rsplit('::', 1)[-1] for x in names], 'classified in epoch': [a[3] for a, v in atoms]},
                expected='classification between apply and undo of the same move',
                why='a move is annotated according to the position it produces')
-        ctx.ob(rule, name, 'path(mate=%s,check=%s): classified player is the `player` argument on the caller\'s board' % key,
-               players == {('p', 4)} and boards == {('ref', ('der', ('p', 3)))}, found=[show(p) for p in players], expected='arg player')
-        ctx.ob(rule, name, 'path(mate=%s,check=%s): returned effect is the effect stored' % key, o.value == eff, found=show(o.value), expected=show(eff))
+        ctx.ob(rule, name, 'path(mate=%s,check=%s): classified player is the opponent of the mover on the caller\'s board' % key,
+               players == {('call', OPP, (('p', 4),), None)} and boards == {('ref', ('der', ('p', 3)))}, found=[show(p_) for p_ in players], expected='opposite(player)',
+               why='the side that may be in check after a move is the opponent of the mover')
     oracle = {(1, None): 'Checkmate', (0, 1): 'Check', (0, 0): 'None'}
     for k, want in oracle.items():
         ctx.ob(rule, name, 'row(mate=%s,check=%s) -> %s' % (k[0], k[1], table.get(k)), table.get(k) == want, found=table.get(k), expected=want,
                why='annotation: checkmate, else check, else neither')
     ctx.floor(rule, 'return paths', n, 3)
-    # the caller passes the opponent of the mover
-    n2 = MG + '::lazily_update_chess_move_effect_for_checks_and_checkmates'
-    fn = facts.need_fn(n2)
-    eng = Engine(facts, opaque={name})
-    outs = eng.run(n2)
-    ctx.touch(n2)
-    args = set()
-    for o in outs:
-        for e in o.events:
-            if e[0] == 'call' and e[1] == name:
-                args.add(e[2][3])
-    ctx.ob(rule, n2, 'moves of `player` are classified for opposite(player)', args == {('call', OPP, (('p', 4),), None)},
-           found=[show(a) for a in args], expected='opposite(player)', why='the side that may be in check after a move is the opponent of the mover')
-    # every listed move goes through the classification: each iteration of the loop calls it on the current element,
-    # and nobody else stores an effect
-    lo = Engine(facts, opaque={name}).run(n2)
-    its = [o for o in lo if o.kind == 'backedge']
-    every = bool(its)
-    for o in its:
-        calls = [e for e in o.events if e[0] == 'call' and e[1] == name]
-        nxt = [e for e in o.events if e[0] == 'call' and e[1].endswith('Iterator>::next')]
-        if len(calls) != 1 or not nxt:
-            every = False
-            continue
-        item = ('call', nxt[-1][1], nxt[-1][2], nxt[-1][3])
-        every = every and any(s == item for s in subterms(calls[0][2][1])) and calls[0][2][2] == ('ref', ('der', ('p', 3)))
-    exits = [o for o in lo if o.kind == 'return']
-    early = [o for o in exits if not any(c[0][0] == 'discr' and c[0][1][0] == 'call' and c[0][1][1].endswith('Iterator>::next') and c[1] == 0 for c in o.conds)]
+    # every listed move goes through the classification; the walk over the list ends only when it is exhausted
+    exits = [o for o in outs if o.kind == 'return']
+    early = []
+    for o in exits:
+        heads = [e for e in o.events if e[0] == 'loop_head']
+        if heads and isinstance(heads[0][2], tuple):
+            ad = [e for e in o.events if e[0] == 'adapter' and e[2] == heads[0][2]]
+            if not (ad and ad[0][1] == 'for_each' and not ad[0][4]):
+                early.append(o)
+        elif not any(c[0][0] == 'discr' and c[0][1][0] == 'call' and c[0][1][1].endswith('Iterator>::next') and c[1] == 0 for c in o.conds):
+            early.append(o)
+    src_ok = all(any(('p', 2) in set(subterms(x[1])) for x in iteration_sources(o)) for o in its) and bool(its)
     ctx.ob(rule, n2, 'every listed move is classified: each iteration calls the classification on the current move, no early exit',
-           every and not early, found={'iteration paths': len(its), 'paths skipping the call': sum(1 for o in its if not [e for e in o.events if e[0] == 'call' and e[1] == name]),
-                                       'early exits': len(early)},
-           expected='for m in moves.iter_mut() { lazily_calculate_chess_move_effect(m, board, opponent) }',
+           every and not early and src_ok, found={'iteration paths': len(its), 'early exits': len(early), 'iterates over the list argument': src_ok},
+           expected='for m in moves.iter_mut() { apply; classify; undo; set_effect }',
            why='every legal move listed must be annotated according to the position it produces; a shortcut that stamps some moves without '
                'looking misses discovered checks')
-    setters = {f.name for f, b in facts.call_sites(CHESSMOVE + '::set_effect', crate='chess', kinds=('lib', 'bin'))}
-    ctx.ob(rule, CHESSMOVE + '::set_effect', 'effects are stored only by the classification routine', setters <= {name}, found=sorted(setters), expected=[name],
-           why='an effect written anywhere else is not derived from the position the move produces')
+    gate = facts.only_through({n2})
+    setters = {(f.closure_of or f.name) for f, b in facts.call_sites(CHESSMOVE + '::set_effect', crate='chess', kinds=('lib', 'bin'))}
+    ctx.ob(rule, CHESSMOVE + '::set_effect', 'effects are stored only by the classification routine', bool(setters) and setters <= gate, found=sorted(setters),
+           expected=sorted(gate), why='an effect written anywhere else is not derived from the position the move produces')
     n3 = MG + '::generate_moves_and_lazily_update_chess_move_effects'
     outs = Engine(facts, opaque={n2, GEN}).run(n3)
     ctx.touch(n3)
